@@ -242,6 +242,8 @@ def ints(ctx, rng):
                 ctx.violation("int", f"codec-raises:{type(ex).__name__}", {"type": spelled, "endian": e, "value": v,
                                                                           "error": lib.exc_sig(ex)})
                 continue
+            if v in (lo, hi):
+                ctx.sample({"type": spelled, "canonical": canon, "endian": e, "value": v, "encoding": want.hex()}, limit=2)
             if got != want or int(back) != v or int(back2) != v or s.tell() != size:
                 ctx.violation("int", "integer-codec-differs-from-twos-complement",
                               {"type": spelled, "canonical": canon, "endian": e, "value": v, "dumped": got.hex(),
@@ -431,8 +433,7 @@ def run(ctx):
     finally:
         mon.uninstall()
     ctx.sample({"workloads": ["ints x aliases x endians", "floats/char/wchar", "leb128 exhaustive 1-2 byte + values",
-                              "endian switch on loaded definitions"]})
-    ctx.sample({"int_case": {"type": "int24", "endian": ">", "value": -8388608, "want": "800000"}})
+                              "endian switch on loaded definitions"]}, limit=4)
 
 
 def replay(ctx, detail):
